@@ -12,31 +12,39 @@ func init() {
 
 // runMCLexScan model-checks the Scan loop against every automaton (MC_LexScan.tla).
 func (c *Ctx) runMCLexScan(invs, props []string) {
-	maxLen, maxCalls := 3, 5
-	widths := "{1, 3}"
+	type mcCfg struct {
+		maxLen, maxCalls int
+		widths, kinds    string
+	}
+	cfgs := []mcCfg{{3, 5, "{1, 3}", `{"nl", "cr", "tab", "o"}`}}
 	if !c.Quick() {
-		maxLen, maxCalls = 4, 5
-		widths = "{1, 2}"
+		// deeper: longer texts with one width, and all widths 1..4 on three rune kinds
+		cfgs = append(cfgs, mcCfg{4, 5, "{2}", `{"nl", "cr", "tab", "o"}`}, mcCfg{3, 6, "{1, 2, 4}", `{"nl", "tab", "o"}`})
 	}
-	cfg := fmt.Sprintf("SPECIFICATION Spec\nCONSTANTS\n  MaxLen = %d\n  Kinds = {\"nl\", \"cr\", \"tab\", \"o\"}\n  Widths = %s\n  TokTypes = {2, 3}\n  MaxCalls = %d\nCHECK_DEADLOCK FALSE\n", maxLen, widths, maxCalls)
-	for _, i := range invs {
-		cfg += "INVARIANT " + i + "\n"
-	}
-	for _, p := range props {
-		cfg += "PROPERTY " + p + "\n"
-	}
-	r := c.RunTLC(TLCOpts{Module: "MC_LexScan", Cfg: cfg, Timeout: 40 * time.Minute, Coverage: !c.Quick()})
-	if !r.OK {
-		infra("MC_LexScan: the model of the Scan loop violates its own properties (%s %s); the specification needs attention\n%s", r.ErrKind, r.InvViolated, tail(filterTLC(r.Out), 60))
-	}
-	c.Add("states", r.Distinct)
-	c.Add("transitions", r.Generated)
-	c.Set("mc_lexscan", map[string]any{"distinct_states": r.Distinct, "generated": r.Generated, "depth": r.Depth, "max_text_len": maxLen, "max_calls": maxCalls, "invariants": invs, "properties": props})
-	if !c.Quick() {
-		if z := coverageZero(r.Out, []string{"ScanAtEOF", "ScanBegin", "Iterate", "ScanEnd", "Reset"}); len(z) > 0 {
-			infra("MC_LexScan: actions never taken (vacuous model): %v", z)
+	var runs []map[string]any
+	for k, m := range cfgs {
+		cfg := fmt.Sprintf("SPECIFICATION Spec\nCONSTANTS\n  MaxLen = %d\n  Kinds = %s\n  Widths = %s\n  TokTypes = {2, 3}\n  MaxCalls = %d\nCHECK_DEADLOCK FALSE\n", m.maxLen, m.kinds, m.widths, m.maxCalls)
+		for _, i := range invs {
+			cfg += "INVARIANT " + i + "\n"
+		}
+		for _, p := range props {
+			cfg += "PROPERTY " + p + "\n"
+		}
+		cov := !c.Quick() && k == 0
+		r := c.RunTLC(TLCOpts{Module: "MC_LexScan", Cfg: cfg, Timeout: 60 * time.Minute, Coverage: cov})
+		if !r.OK {
+			infra("MC_LexScan: the model of the Scan loop violates its own properties (%s %s); the specification needs attention\n%s", r.ErrKind, r.InvViolated, tail(filterTLC(r.Out), 60))
+		}
+		c.Add("states", r.Distinct)
+		c.Add("transitions", r.Generated)
+		runs = append(runs, map[string]any{"distinct_states": r.Distinct, "generated": r.Generated, "depth": r.Depth, "max_text_len": m.maxLen, "max_calls": m.maxCalls, "widths": m.widths, "kinds": m.kinds})
+		if cov {
+			if z := coverageZero(r.Out, []string{"AScanAtEOF", "ABegin", "LoopStep", "AEnd", "AReset"}); len(z) > 0 {
+				infra("MC_LexScan: actions never taken (vacuous model): %v", z)
+			}
 		}
 	}
+	c.Set("mc_lexscan", map[string]any{"runs": runs, "invariants": invs, "properties": props})
 }
 
 var posRunes = []rune{'\n', '\r', '\t', ' '}
